@@ -5,6 +5,7 @@ import (
 	"math/rand"
 	"reflect"
 	"strings"
+	"unicode/utf8"
 
 	hessian "github.com/vogo/gohessian"
 
@@ -41,6 +42,11 @@ func (c06) Cases(tier string, seed int64, kf *KnownFindings) []Case {
 		nl = 40
 	}
 	cs = append(cs, Case{Kind: "long", Seed: Mix(seed, 7000), Count: nl, N: 450, Sub: -1})
+	// fixed histories: ill-formed strings in front of small values (framing only), and slices that
+	// travel UNTYPED (name map without list names) first at a generic position, later in a typed field
+	cs = append(cs, Case{Kind: "lit", S: "badutf8", Count: 4, Sub: -1})
+	cs = append(cs, Case{Kind: "lit", S: "untyped-resent", Count: 4, Sub: -1})
+	cs = append(cs, Case{Kind: "lit", S: "untyped-resent-reverse", Count: 4, Sub: -1})
 	if tier == "thorough" {
 		// all histories of length <= 3 over a 12-value alphabet: 12 + 144 + 1728
 		for a := 0; a < 12; a++ {
@@ -127,6 +133,7 @@ func (c06) Run(c Case, env *Env) Result {
 	for j := lo; j < hi; j++ {
 		var hist []interface{}
 		var featSet = map[string]bool{}
+		untyped := false
 		mode := j % 4
 		// complete maps for exactly the values of this history
 		tm, nm := map[string]reflect.Type{}, map[string]string{}
@@ -140,6 +147,19 @@ func (c06) Run(c Case, env *Env) Result {
 				hist = []interface{}{m, "between", m, nm2, nm2}
 			case "list-resent":
 				hist = []interface{}{l, l, []interface{}{l, m}, m}
+			case "badutf8":
+				// strings that end in a cut-off lead octet, each followed by a value whose first octets
+				// could be taken for continuation octets (x80..xbf are the one-octet ints -16..47)
+				hist = []interface{}{"ab\xe4", int32(0), "x\xf0\x9f", int32(16), int32(47), "\xc3", int32(-16), "caf\xe9", "tail", &zoo.Inner{A: 1, S: "z\xe4\xb8"}, int32(1)}
+			case "untyped-resent", "untyped-resent-reverse":
+				ss := []string{"p", "q", "r"}
+				is := []int64{1 << 40, 2}
+				ps := []*zoo.Inner{{A: 1, S: "a"}, {A: 2, S: "b"}}
+				hist = []interface{}{ss, is, "between", &zoo.SlStr{V: ss}, &zoo.SlInt64{V: is}, ps, &zoo.SlPtr{V: ps}, ss}
+				if c.S == "untyped-resent-reverse" {
+					hist = []interface{}{&zoo.SlStr{V: ss}, &zoo.SlInt64{V: is}, &zoo.SlPtr{V: ps}, "between", ss, is, ps, &zoo.SlStr{V: ss}}
+				}
+				untyped = true
 			}
 			mode = j % 4
 		case "long":
@@ -242,6 +262,20 @@ func (c06) Run(c Case, env *Env) Result {
 		if c.Kind == "lit" {
 			for _, v := range hist {
 				mergeMaps(tm, nm, v)
+			}
+			if untyped {
+				// classes only: lists travel untyped and take their type from the field they land in
+				for k, v := range nm {
+					if strings.HasPrefix(k, "[") || strings.HasPrefix(v, "[") {
+						delete(nm, k)
+					}
+				}
+				for k, t := range tm {
+					if t.Kind() == reflect.Slice {
+						delete(tm, k)
+					}
+				}
+				featSet["untyped-lists"] = true
 			}
 		}
 		if c.Kind == "alpha" {
@@ -384,6 +418,26 @@ func (c06) Run(c Case, env *Env) Result {
 				viol("carrier-leak", fmt.Sprintf("read #%d (%s) handed back internal type %s", i+1, describe(v), cr))
 				bad = true
 				break
+			}
+			if s, ok := v.(string); ok && !utf8.ValidString(s) {
+				v = string([]rune(s)) // what an ill-formed string denotes is not specified; the framing above is
+			}
+			if in, ok := v.(*zoo.Inner); ok && !utf8.ValidString(in.S) {
+				v = &zoo.Inner{A: in.A, S: string([]rune(in.S))}
+			}
+			if untyped {
+				if rv := reflect.ValueOf(v); rv.Kind() == reflect.Slice {
+					// an untyped list at a generic position comes back as []interface{}: compare the elements
+					g := make([]interface{}, rv.Len())
+					for k := range g {
+						g[k] = rv.Index(k).Interface()
+					}
+					v = g
+					// ... or as the typed slice, when a typed field received the same list earlier
+					if ov := reflect.ValueOf(outs[i]); ov.IsValid() && ov.Kind() == reflect.Slice && ov.Type() == rv.Type() {
+						v = hist[i]
+					}
+				}
 			}
 			if d := zoo.Equiv(v, outs[i], zoo.EquivOpts{}); d != "" {
 				viol("mismatch", fmt.Sprintf("read #%d of %d (%s): %s", i+1, len(hist), describe(v), d))
